@@ -780,6 +780,24 @@ class MatchFunction:
         self.fn = fn
 
 
+class MatchIdentity:
+    """Matches one particular object, whatever its __eq__ and __hash__."""
+
+    def __init__(self, obj):
+        self.obj = obj
+
+    def __eq__(self, other):
+        if isinstance(other, MatchIdentity):
+            return other.obj is self.obj
+        return other is self.obj
+
+    def __hash__(self):
+        return id(self.obj)
+
+    def __repr__(self):
+        return repr(self.obj)
+
+
 def _dig(fn):
     while hasattr(fn, "__wrapped__") and not is_tooled(fn):
         fn = fn.__wrapped__
@@ -803,7 +821,7 @@ def _resolve(selector, env, cnt):
                 Element(
                     name=selfname,
                     capture=selfname,
-                    value=fn.__self__,
+                    value=MatchIdentity(fn.__self__),
                 )
             )
         else:
